@@ -316,23 +316,22 @@ theorem step_inv (P : Params J V) (jobs : List J) (n : Nat) (hn : 0 < n) (c c' :
   | abort w =>
     simp only [step?] at hs
     split at hs
-    · rename_i hwk
+    · rename_i j hwk
       split at hs
       · rename_i herr
         simp only [Option.some.injEq] at hs; subst hs
-        have hlive := count_filterMap_set liveOf c.workers w W.idle W.exited () hwk
+        have hlive := count_filterMap_set liveOf c.workers w (W.holding j) W.exited () hwk
         simp only [liveOf] at hlive
         simp at hlive
-        refine ⟨?_, ?_, hv, hf, hct, ?_, ?_, he, hes, ?_, ?_, hr, hd⟩
+        refine ⟨?_, ?_, hv, hf, hct, ?_, ?_, he, hes, ?_, ?_, hr, fun _ => he herr⟩
         · intro x
           have := hc x
-          have hs := count_filterMap_set holdingOf c.workers w W.idle W.exited x hwk
-          simp only [pending, List.count_append, holdingOf] at this hs ⊢
-          simp at hs
-          omega
+          have hs := count_filterMap_set holdingOf c.workers w (W.holding j) W.exited x hwk
+          simp only [pending, List.count_append, List.count_cons, holdingOf] at this hs ⊢
+          by_cases e : j = x <;> simp [e] at this hs ⊢ <;> omega
         · intro x
           have := ha x
-          have hs := count_filterMap_set postOf c.workers w W.idle W.exited x hwk
+          have hs := count_filterMap_set postOf c.workers w (W.holding j) W.exited x hwk
           simp only [List.count_append, postOf] at this hs ⊢
           simp at hs
           omega
@@ -471,10 +470,10 @@ theorem step_measure (P : Params J V) (c c' : Cfg J V) (l : Label) (hs : step? P
   | abort w =>
     simp only [step?] at hs
     split at hs
-    · rename_i hwk
+    · rename_i j hwk
       split at hs
       · simp only [Option.some.injEq] at hs; subst hs
-        have := wSum_set c.workers w W.idle W.exited hwk
+        have := wSum_set c.workers w (W.holding j) W.exited hwk
         simp only [mu, wWeight] at this ⊢; omega
       · simp at hs
     · simp at hs
